@@ -25,6 +25,13 @@ class ToolError(Exception):
     pass
 
 
+class DriverDied(ToolError):
+    """the harness process was killed by a signal while running the code under test; .path = the trace recorded so far"""
+    def __init__(self, path, msg):
+        super().__init__(msg)
+        self.path = path
+
+
 def log(*a):
     print(*a, flush=True)
 
@@ -92,6 +99,15 @@ def xv(driver, timeout=600, env=None, **kw):
             tail = [l for l in (p.stderr or "").splitlines() if l.strip()]
             what = next((l for l in tail if "memory allocation" in l or "overflow" in l or "panicked" in l), tail[0] if tail else "")
             return {"died": p.returncode, "partial": part, "what": what[:300]}
+        out = str(kw.get("out", ""))
+        if p.returncode < 0 and out and os.path.exists(out) and os.path.getsize(out) > 0:
+            # killed by a signal (abort on allocation failure, stack overflow, ...) inside the code under test: the runs
+            # recorded so far plus the death are handed to the check's trace validation (bin/check catches DriverDied)
+            tail = [l for l in (p.stderr or "").splitlines() if l.strip()]
+            what = next((l for l in tail if "memory allocation" in l or "overflow" in l or "panicked" in l), tail[0] if tail else "")
+            with open(out, "a") as f:
+                f.write("\n" + json.dumps({"ev": "reset"}) + "\n" + json.dumps({"ev": "XvAbort", "driver": driver, "signal": -p.returncode, "what": what[:300]}) + "\n")
+            raise DriverDied(out, "xv %s died with signal %d: %s" % (driver, -p.returncode, what[:200]))
         sys.stdout.write((p.stderr or "")[-4000:])
         raise ToolError("xv %s failed rc=%d" % (driver, p.returncode))
     last = [l for l in p.stdout.splitlines() if l.strip()]
